@@ -23,6 +23,7 @@ func runC03(w *World) *Result {
 	r.Rule("R-C03-range", "range loop: index from 0, index < len(same iterable), ++ on the same variable, element read first", 5)
 	r.Rule("R-C03-arity", "helper call templates pass exactly the positional arguments the helper body reads", 5)
 	r.Rule("R-C03-dvc", "array counter incremented before the array name is formed; one global counter name", 2)
+	r.Rule("R-C03-init", "helper routines give their counters / accumulators a value before updating them from themselves", 4)
 	r.Rule("R-C03-scratch", "a helper keeps no state in a non-local variable that a helper it calls assigns", 1)
 	r.Rule("R-C03-driver", "slice/string nodes: the driver evaluates each operand once, used, in source order, then calls the converter", 5)
 	ProtoRule(w, r, "R-C03-driver", func(n string) bool {
@@ -44,6 +45,28 @@ func runC03(w *World) *Result {
 		c03Arity(w, b, r)
 		c03Dvc(w, b, r)
 		c03Scratch(w, b, r)
+		sliceHelpers := map[string]bool{}
+		for _, m := range []string{"SliceInstantiation", "SliceAssignment", "SliceEvaluation", "SliceLen", "StringSubscript", "StringLen", "Copy"} {
+			for _, l := range b.LinesOf(m) {
+				for _, h := range invokedHelpers(b, l) {
+					sliceHelpers[h] = true
+				}
+			}
+		}
+		for changed := true; changed; {
+			changed = false
+			for h := range sliceHelpers {
+				for _, l := range b.Helpers[h] {
+					for _, c := range invokedHelpers(b, l) {
+						if !sliceHelpers[c] {
+							sliceHelpers[c] = true
+							changed = true
+						}
+					}
+				}
+			}
+		}
+		HelperInitRule(w, b, r, "R-C03-init", func(h string) bool { return sliceHelpers[h] })
 	}
 	return r
 }
@@ -904,6 +927,82 @@ func c03Scratch(w *World, b *Backend, r *Result) {
 			r.Ok(rule, key, pos, fmt.Sprintf("calls %v; no variable this helper sets before such a call and reads after it is assigned (non-locally) by the callee", uniq(callees)))
 		} else {
 			r.Bad(rule, key, pos, fmt.Sprintf("helper %s keeps state across a call that overwrites it: %s", h, strings.Join(uniq(clash), "; ")))
+		}
+	}
+}
+
+// HelperInitRule: a helper routine that updates a non-local variable from its own previous
+// value (v = v + …, v = v"text") assigns it a value that does not depend on v on an
+// earlier line of the same routine. Without that the routine continues from whatever the
+// previous invocation left behind (second read returns first + second content, a second
+// copy starts at the old index).
+func HelperInitRule(w *World, b *Backend, r *Result, rule string, only func(helper string) bool) {
+	reSet := regexp.MustCompile(`set (?:/[AaPp] )?"?([A-Za-z_][A-Za-z0-9_]*)=([^"]*)`)
+	reAssign := regexp.MustCompile(`(?:^|[ ;(])(local )?([A-Za-z_][A-Za-z0-9_]*)=(\S*)`)
+	var hs []string
+	for h := range b.Helpers {
+		hs = append(hs, h)
+	}
+	sort.Strings(hs)
+	for _, h := range hs {
+		if only != nil && !only(h) {
+			continue
+		}
+		lines := b.Helpers[h]
+		type upd struct {
+			v    string
+			line int
+		}
+		var selfs []upd
+		inits := map[string]int{} // variable -> first line with an assignment not reading it
+		locals := map[string]bool{}
+		for i, l := range lines {
+			txt, _ := flattenPUA(l.Variant)
+			var assigns [][3]string
+			if b.Role == "bash" {
+				for _, m := range reAssign.FindAllStringSubmatch(txt, -1) {
+					assigns = append(assigns, [3]string{m[2], m[3], m[1]})
+				}
+				trim := strings.TrimSpace(txt)
+				if strings.HasPrefix(trim, "for ((") {
+					// for ((v=init; …; v++)) initialises v itself
+					if m := regexp.MustCompile(`\(\(([A-Za-z_][A-Za-z0-9_]*)=`).FindStringSubmatch(trim); m != nil {
+						if _, ok := inits[m[1]]; !ok {
+							inits[m[1]] = i
+						}
+					}
+				}
+			} else {
+				for _, m := range reSet.FindAllStringSubmatch(txt, -1) {
+					assigns = append(assigns, [3]string{m[1], m[2], ""})
+				}
+			}
+			for _, a := range assigns {
+				v, rhs := a[0], a[1]
+				if a[2] != "" {
+					locals[v] = true
+				}
+				reads := strings.Contains(rhs, "!"+v+"!") || strings.Contains(rhs, "%"+v+"%") || strings.Contains(rhs, "${"+v+"}") || strings.Contains(rhs, "$"+v) || regexp.MustCompile(`\b`+regexp.QuoteMeta(v)+`\b`).MatchString(strings.NewReplacer("!", " ", "%", " ").Replace(rhs)) && strings.Contains(txt, "/A")
+				if reads {
+					selfs = append(selfs, upd{v, i})
+				} else if _, ok := inits[v]; !ok {
+					inits[v] = i
+				}
+			}
+		}
+		seen := map[string]bool{}
+		for _, u := range selfs {
+			if seen[u.v] {
+				continue
+			}
+			seen[u.v] = true
+			key := fmt.Sprintf("init:%s:%s:%s", b.Role, h, u.v)
+			pos := w.Pos(lines[u.line].Em.Pos)
+			if at, ok := inits[u.v]; ok && at < u.line {
+				r.Ok(rule, key, pos, fmt.Sprintf("%s is given a value on line %d of the routine before it is updated from itself on line %d", u.v, at+1, u.line+1))
+			} else {
+				r.Bad(rule, key, pos, fmt.Sprintf("helper %s updates %s from its own previous value (line %d: %s) without giving it a value first: the routine continues from what its previous invocation left in %s", h, u.v, u.line+1, strings.TrimSpace(lines[u.line].Variant.String()), u.v))
+			}
 		}
 	}
 }
